@@ -331,7 +331,10 @@ FamForms ==
   { Plain("forms", s) : s \in UNION { {
       <<FS("", "pv", <<F("", "name"), TN>>), FS("", top, <<TN, Inl("P", <<F("", "n")>>), F("", "name")>>)>>,
       <<FS("", top, <<TN, Inl("P", <<F("", "n")>>), F("", "name")>>), FS("", "pv", <<F("", "name"), TN>>)>>,
-      <<FS("", top, <<Inl("Solo", <<TN>>), F("x", "say")>>), FS("", "pv", <<F("", "n")>>)>> } : top \in {"pp", "ps"} } }
+      <<FS("", top, <<Inl("Solo", <<TN>>), F("x", "say")>>), FS("", "pv", <<F("", "n")>>)>>,
+      \* fields promoted from embedded structs and a method with a pointer receiver, value first and pointer first
+      <<FS("", "pv", <<F("", "stamp"), F("", "rank")>>), FS("", top, <<Inl("P", <<F("", "stamp"), F("", "code")>>), F("", "name")>>)>>,
+      <<FS("", top, <<Inl("P", <<F("", "code"), F("", "rank")>>)>>), FS("", "pv", <<F("", "code"), F("", "stamp")>>)>> } : top \in {"pp", "ps"} } }
 
 \* undefined field under a union member / interface member reached through a condition-less fragment (C10, reflection only)
 FamDefectsAbs ==
